@@ -398,7 +398,13 @@ impl<'text> std::iter::FusedIterator for SplitLines<'text> {}
 
 impl<'text> ExactSizeIterator for SplitLines<'text> {
     fn len(&self) -> usize {
-         self.end.page.line - self.start.page.line
+        // One piece for each line from the start line to the end line; none
+        // once the start line has moved past the end line.
+        if self.start.page.line > self.end.page.line {
+            0
+        } else {
+            self.end.page.line - self.start.page.line + 1
+        }
     }
 }
 
